@@ -107,6 +107,7 @@ func TestC10ConcurrentRequests(t *testing.T) {
 		a := w.AddNode("alice")
 		m := w.AddNode("mallory")
 		w.LN.AddChannel("300x3x0", a.Id, m.Id, 5_000_000_000, 5_000_000_000)
+		w.LN.AddChannel("400x4x0", a.Id, m.Id, 5_000_000_000, 5_000_000_000)
 		if err := a.Boot(); err != nil {
 			t.Fatal(err)
 		}
@@ -144,6 +145,11 @@ func TestC10ConcurrentRequests(t *testing.T) {
 			// a swap is under way, the node restarts, and a request arrives while RecoverSwaps is running
 			r1 := deliver(t1, id1, scids[0])
 			r1.wait(5 * time.Second)
+			// a second unfinished swap on another channel: the restart has two swaps to restore
+			other := rapid.Bool().Draw(t, "secondSwapOnOtherChannel")
+			if other {
+				deliver(rapid.SampledFrom([]int{mtSwapInRequest, mtSwapOutRequest}).Draw(t, "type0"), freshId(t), "400x4x0").wait(5 * time.Second)
+			}
 			a.Kill()
 			if err := a.Boot(); err != nil {
 				t.Fatal(err)
@@ -161,20 +167,39 @@ func TestC10ConcurrentRequests(t *testing.T) {
 				// recovery did not pass that point: the request below arrives after recovery (plain case)
 				parkAt += "(not reached)"
 			}
-			r2 := deliver(t2, id2, rapid.SampledFrom(scids).Draw(t, "scid2"))
+			// RecoverSwaps restores the swaps concurrently: give the swap whose recovery is not parked time
+			// to take its channel (a request that beats it is the recorded finding C10-request-before-recovery,
+			// not what this mode is about)
+			if other && !rec.finished() {
+				waitUntilC10(func() bool { return len(a.Svc.VerifActiveSwapIds()) >= 2 || rec.finished() }, 3*time.Second)
+			}
+			// the request asks for one of the channels that have a swap to restore (the one whose recovery
+			// is parked, or the other one)
+			reqScids := scids
+			if other && rapid.Bool().Draw(t, "requestOtherChannel") {
+				reqScids = []string{"400x4x0", "400:4:0"}
+			}
+			r2 := deliver(t2, id2, rapid.SampledFrom(reqScids).Draw(t, "scid2"))
 			r2.wait(300 * time.Millisecond)
 			w.Locked(func() { w.ParkOn = "" })
 			w.Release()
 			if !rec.wait(5*time.Second) || !r2.wait(5*time.Second) {
 				t.Fatalf("VKEY[C18/entry-point-never-returned] request during recovery (parked at %s) never returned", parkAt)
 			}
-			desc = fmt.Sprintf("request-during-recovery types=%d,%d park=%s chain=%s", t1, t2, parkAt, chain)
+			desc = fmt.Sprintf("request-during-recovery types=%d,%d park=%s chain=%s twoSwaps=%v", t1, t2, parkAt, chain, other)
 		}
 		// the invariant
 		var live []string
+		perChan := map[string][]string{}
 		for _, s := range a.Swaps() {
-			if !isTerminal(s.Current) && s.Data != nil && sim.NormScid(s.Data.GetScid()) == "300x3x0" {
-				live = append(live, fmt.Sprintf("%s(%s)", s.SwapId.String()[:6], s.Current))
+			if !isTerminal(s.Current) && s.Data != nil {
+				c := sim.NormScid(s.Data.GetScid())
+				perChan[c] = append(perChan[c], fmt.Sprintf("%s(%s)", s.SwapId.String()[:6], s.Current))
+			}
+		}
+		for _, c := range []string{"300x3x0", "400x4x0"} {
+			if len(perChan[c]) > len(live) {
+				live = perChan[c]
 			}
 		}
 		if len(live) > 1 {
@@ -222,4 +247,15 @@ func (g *goTask) finished() bool {
 	default:
 		return false
 	}
+}
+
+func waitUntilC10(cond func() bool, d time.Duration) bool {
+	dl := time.Now().Add(d)
+	for time.Now().Before(dl) {
+		if cond() {
+			return true
+		}
+		time.Sleep(300 * time.Microsecond)
+	}
+	return cond()
 }
